@@ -191,7 +191,7 @@ def engine_run(ch, *, bias=None, unknown_rates=(0.0, 0.0, 0.03, 0.3, 1.0), n_sig
     try:
         inp, sevm, reports, info, solver = E.run_sevm(w, seams, max_paths=max_paths)
     except (ArithmeticError, RecursionError, AssertionError, TypeError, ValueError, AttributeError, KeyError,
-            IndexError, NotImplementedError) as e:
+            IndexError, NotImplementedError, z3.Z3Exception) as e:
         # an internal exception of halmos aborts the whole exploration (the test would be reported
         # as ERROR): nothing is reported, so nothing can be judged here.  Counted, not a violation
         # of the properties decided by this engine.
